@@ -432,3 +432,10 @@ theorem mod_add_multiple (a b M : ℤ) (h : b % M = 0) : (a + b) % M = a % M := 
 /-- adding k*M does not change the residue -/
 theorem mod_shift (a k M : ℤ) : (a + k * M) % M = a % M :=
   Int.add_mul_emod_self_right a k M
+
+/-- Digits of `w` bits cover `r` bits when there are ceil(r / w) of them (finding F50). -/
+theorem div_ceil (r w : ℤ) (hw : 0 < w) : r ≤ ((r + w - 1) / w) * w := by
+  have h := Int.lt_ediv_add_one_mul_self (r + w - 1) hw
+  have e : ((r + w - 1) / w + 1) * w = ((r + w - 1) / w) * w + w := by ring
+  rw [e] at h
+  omega
